@@ -477,6 +477,131 @@ def reply_to_departed_peer_case(ctx, seed):
                 pass
 
 
+def explicit_accept_case(ctx, seed):
+    """A connection taken with server.accept() is read through the returned port - while the server
+    itself is polled for its other clients."""
+    rng = random.Random(seed)
+    case = lambda: {'kind': 'explicit-accept', 'seed': seed}  # noqa: E731
+    sleeps = Sleeps(limit=300, real=0.001)
+    orig = mido.ports.sleep
+    mido.ports.sleep = sleeps
+    server = c1 = c2 = port = None
+    try:
+        server = PortServer('127.0.0.1', 0)
+        portno = server._socket.getsockname()[1]
+        c1 = connect('127.0.0.1', portno)
+        port = server.accept()                      # explicitly accepted: belongs to the caller
+        c2 = connect('127.0.0.1', portno)           # this one is left to the server
+        m1 = [Message('note_on', channel=1, note=i) for i in range(rng.randrange(1, 4))]
+        m2 = [Message('note_on', channel=2, note=i) for i in range(rng.randrange(1, 4))]
+        for m in m1:
+            c1.send(m)
+        for m in m2:
+            c2.send(m)
+        c1.close()
+        from_server, from_port = [], []
+        t_end = time.time() + 10
+        while time.time() < t_end and (len(from_server) < len(m2) or not port.closed):
+            m = server.poll()
+            if m is not None:
+                from_server.append(m)
+            from_port.extend(port.iter_pending())
+            time.sleep(0.001)
+        ctx.check('delivered == complete messages before the cut', from_port == m1, 'explicit-accept-port-differs', case,
+                  lambda: {'from_port': [x.hex() for x in from_port], 'want': [x.hex() for x in m1],
+                           'from_server': [x.hex() for x in from_server]})
+        ctx.check('server hands out every client message exactly once', from_server == m2, 'explicit-accept-server-differs',
+                  case, lambda: [x.hex() for x in from_server])
+        ctx.check('port reports closed after disconnect', port.closed, 'explicit-accept-not-closed', case, None)
+    except HarnessAbort as exc:
+        ctx.check('server calls do not block', False, 'explicit-accept-blocked', case, str(exc))
+    except Exception as exc:
+        ctx.fail('server hands out every client message exactly once', f'explicit-accept:{type(exc).__name__}', case, repr(exc))
+    finally:
+        mido.ports.sleep = orig
+        for p in (port, c1, c2, server):
+            try:
+                if p is not None:
+                    p.close()
+            except Exception:
+                pass
+
+
+def dying_client_case(ctx, seed, order):
+    """Two clients: A has sent complete messages, B dies with a TCP reset.  Calls on the server may
+    raise OSError while B is being noticed (not judged), but A's messages must still come out,
+    exactly once."""
+    import struct
+    rng = random.Random(seed)
+    case = lambda: {'kind': 'dying-client', 'seed': seed, 'order': order}  # noqa: E731
+    sleeps = Sleeps(limit=300, real=0.001)
+    orig, orig_random = mido.ports.sleep, mido.ports.random
+
+    class Order:
+        def shuffle(self, lst):
+            if order == 'reversed':
+                lst.reverse()
+    mido.ports.sleep = sleeps
+    mido.ports.random = Order()
+    server = a = b = None
+    try:
+        server = PortServer('127.0.0.1', 0)
+        portno = server._socket.getsockname()[1]
+        a = connect('127.0.0.1', portno)
+        for _ in range(100):
+            server.poll()
+            if len(server.ports) >= 1:
+                break
+            time.sleep(0.001)
+        b = connect('127.0.0.1', portno)
+        for _ in range(100):
+            server.poll()
+            if len(server.ports) >= 2:
+                break
+            time.sleep(0.001)
+        msgs = [Message('note_on', channel=1, note=i) for i in range(rng.randrange(1, 4))]
+        for m in msgs:
+            a.send(m)
+        b._socket.sendall(bytes([0x92, 5]))                 # an incomplete message, then a reset
+        b._socket.setsockopt(socket.SOL_SOCKET, socket.SO_LINGER, struct.pack('ii', 1, 0))
+        b.close()                                            # linger 0: the kernel answers with a reset
+        time.sleep(0.05)
+        got = []
+        raised = 0
+        t_end = time.time() + 10
+        while time.time() < t_end and len(got) < len(msgs):
+            try:
+                m = server.poll()
+            except OSError:
+                raised += 1
+                m = None
+            if m is not None:
+                got.append(m)
+            else:
+                time.sleep(0.002)
+        for _ in range(5):
+            try:
+                m = server.poll()
+                if m is not None:
+                    got.append(m)
+            except OSError:
+                pass
+        ctx.check('server hands out every client message exactly once', got == msgs, 'dying-client-costs-others', case,
+                  lambda: {'got': [x.hex() for x in got], 'want': [x.hex() for x in msgs], 'oserrors': raised})
+    except HarnessAbort as exc:
+        ctx.check('server calls do not block', False, 'dying-client-blocked', case, str(exc))
+    except Exception as exc:
+        ctx.fail('server hands out every client message exactly once', f'dying-client:{type(exc).__name__}', case, repr(exc))
+    finally:
+        mido.ports.sleep, mido.ports.random = orig, orig_random
+        for p in (a, server):
+            try:
+                if p is not None:
+                    p.close()
+            except Exception:
+                pass
+
+
 HOSTS = ['', 'localhost', '127.0.0.1', 'a.b-c', 'example.org', '0.0.0.0', 'host_name', 'x']
 
 
@@ -548,6 +673,11 @@ def run(ctx):
         reply_to_departed_peer_case(ctx, f'{ctx.seed}:{ctx.shard}:d{j}')
         ctx.nontrivial(('departed', ctx.seed, ctx.shard, j))
         n += 1
+    for j in range(1 if ctx.tier == 'quick' else 30):
+        explicit_accept_case(ctx, f'{ctx.seed}:{ctx.shard}:e{j}')
+        dying_client_case(ctx, f'{ctx.seed}:{ctx.shard}:y{j}', ('as-is', 'reversed')[(j + ctx.shard) % 2])
+        ctx.nontrivial(('accept+dying', ctx.seed, ctx.shard, j))
+        n += 2
     k = address_cases(ctx, ctx.shard, ctx.nshards)
     ctx.nontrivial(None, k)
     ctx.extra('address_pairs', k)
@@ -566,6 +696,10 @@ def replay(ctx, case):
         thread_peer_case(ctx, case['seed'])
     elif k == 'killed-peer':
         killed_peer_case(ctx, case['seed'])
+    elif k == 'explicit-accept':
+        explicit_accept_case(ctx, case['seed'])
+    elif k == 'dying-client':
+        dying_client_case(ctx, case['seed'], case['order'])
     elif k == 'reply-to-departed':
         reply_to_departed_peer_case(ctx, case['seed'])
     elif k == 'server':
